@@ -18,6 +18,17 @@ CHECKS = {
         note='Trusted: vlib/oracle_round.py + vlib/refdec.py (self-tested against numpy float16/32 casts and an analytic/enumerated cross-check); Python Fraction arithmetic.'),
 }
 
+CHECKS['C04'] = dict(
+    category='exploration', design_ref='DESIGN.md §3 C04, §2.5, §2.6',
+    technique='grammar-based FPy source generation (seeded PRNG + Hypothesis draws) vs independent reference evaluator written from the language documents',
+    text='Generated FPy modules (helpers with/without declared contexts, nested/sequential with-blocks with computed constructor arguments, loops, '
+         'early returns, list aliasing and mutation, comprehensions, reductions, comparison chains) and per-clause templates are loaded through the real '
+         '@fpy decorator and run on several argument tuples and caller contexts; every returned value is compared (sign of zero, NaN, structure) with a '
+         'reference evaluator that walks Python\'s own ast of the same text, carries the active context explicitly and rounds exact rational results once '
+         'with the independent rounding oracle. Context sensitivity is measured per case by re-evaluating with all contexts ignored.',
+    note='Trusted: vlib/refeval.py (documents as written), vlib/oracle_round.py. Programs outside the generator grammar (transcendentals, foreign values, '
+         'pow/mod, nested lists beyond templates) are not explored; document-ambiguous cases are skipped and counted.')
+
 NOT_YET = {}
 
 
